@@ -4,16 +4,6 @@ use vstd::prelude::*;
 use vstd::string::*;
 verus! {
 
-/// the decimal text `Display` prints for a u32 (uninterpreted: only named)
-pub uninterp spec fn u32_text(n: u32) -> Seq<char>;
-
-// TRUSTED[u32-to-string-deterministic]: `n.to_string()` of a u32 is a function of n (vstd leaves the relation
-// to_string_from_display_ensures uninterpreted for integers); its text is named u32_text(n).
-pub broadcast axiom fn axiom_u32_to_string(n: &u32, res: String)
-    requires #[trigger] to_string_from_display_ensures::<u32>(n, res),
-    ensures res@ == u32_text(*n);
-
-
 /// the decimal digit character of d (0..=9)
 pub open spec fn digit_c(d: int) -> char { (48 + d) as u8 as char }
 /// the decimal text of a natural number: no sign, no padding, "0" for zero
@@ -22,6 +12,15 @@ pub open spec fn dec(n: nat) -> Seq<char>
 {
     if n < 10 { seq![digit_c(n as int)] } else { dec(n / 10).push(digit_c((n % 10) as int)) }
 }
+
+/// the decimal text `Display` prints for a u32
+pub open spec fn u32_text(n: u32) -> Seq<char> { dec(n as nat) }
+
+// TRUSTED[u32-to-string-decimal]: `n.to_string()` of a u32 is its decimal text without sign or padding (std: Display for integers; vstd
+// leaves to_string_from_display_ensures uninterpreted for integers).
+pub broadcast axiom fn axiom_u32_to_string(n: &u32, res: String)
+    requires #[trigger] to_string_from_display_ensures::<u32>(n, res),
+    ensures res@ == dec(*n as nat);
 
 // TRUSTED[u64-to-string-decimal]: `n.to_string()` of a u64 is its decimal text without sign or padding (std: Display for
 // integers; vstd leaves to_string_from_display_ensures uninterpreted for integers).
